@@ -5,13 +5,17 @@ import (
 	"context"
 	"fmt"
 	"os"
+	"runtime"
+	"sort"
 	"strings"
+	"sync"
 	"time"
 
 	"github.com/ipfs/go-datastore"
 
 	datatransfer "github.com/filecoin-project/go-data-transfer/v2"
 	"github.com/filecoin-project/go-data-transfer/v2/channels"
+	"github.com/filecoin-project/go-data-transfer/v2/impl"
 )
 
 // ---------- step constructors ----------
@@ -617,7 +621,9 @@ func runNodeValidate(dir string, seed uint64, tier string) {
 				if v.Err {
 					continue // UpdateValidationStatus takes a result only
 				}
-				if (gi+len(st.name))%stride != 0 {
+				// a responder awaiting finalization meets every accepting update that still requires finalization
+				keep := st.name == "finalizing" && v.Accepted && v.Fin
+				if (gi+len(st.name))%stride != 0 && !keep {
 					continue
 				}
 				for _, fails := range [][]bool{nil, {false}} {
@@ -890,7 +896,64 @@ func runNodePeers(dir string, seed uint64, tier string) {
 		_ = rig.mgr.Stop(ctx)
 		s.res.hist("burst-restart-rounds")
 	}
-	s.finish(dir, "enumerated: a node with four live channels (both roles, both directions, transfer ids colliding across peers) x sender {each counterparty, stranger, self} x transfer id {each existing id, fresh} x every request kind (8), response kind (9) and restart-existing request; plus SendVoucher / SendVoucherResult / UpdateValidationStatus on every channel and an unknown id; 3 rounds of a burst of 300-600 opens, process restart, one more open (ids across manager lifetimes)", true)
+	// ids drawn concurrently from one manager's generator (C18, monitor only): whatever the interleaving of the draws,
+	// the ids are pairwise distinct, increasing for each caller, and exactly the n values after the seed
+	for round := 0; round < 3; round++ {
+		tc := impl.VerifNewTimeCounter()
+		first := tc.Next()
+		workers := 2 * runtime.GOMAXPROCS(0)
+		if workers < 8 {
+			workers = 8
+		}
+		const per = 60000
+		draws := make([][]uint64, workers)
+		var wg sync.WaitGroup
+		start := make(chan struct{})
+		for w := 0; w < workers; w++ {
+			wg.Add(1)
+			go func(w int) {
+				defer wg.Done()
+				out := make([]uint64, per)
+				<-start
+				for i := range out {
+					out[i] = tc.Next()
+				}
+				draws[w] = out
+			}(w)
+		}
+		close(start)
+		wg.Wait()
+		all := make([]uint64, 0, workers*per)
+		notIncreasing := 0
+		for _, d := range draws {
+			for i := 1; i < len(d); i++ {
+				if d[i] <= d[i-1] {
+					notIncreasing++
+				}
+			}
+			all = append(all, d...)
+		}
+		sort.Slice(all, func(i, j int) bool { return all[i] < all[j] })
+		dups := 0
+		for i := 1; i < len(all); i++ {
+			if all[i] == all[i-1] {
+				dups++
+			}
+		}
+		input := fmt.Sprintf("%d goroutines drawing %d ids each from one generator", workers, per)
+		if dups > 0 {
+			s.res.fail(monitorFailure{Property: "C18", Signature: "concurrent-draws-duplicate-ids", What: "two concurrent draws from one manager's id generator returned the same transfer id", Input: input, Observed: fmt.Sprintf("%d duplicates among %d ids", dups, len(all))})
+		}
+		if notIncreasing > 0 {
+			s.res.fail(monitorFailure{Property: "C18", Signature: "concurrent-draws-not-increasing", What: "the ids one caller drew are not strictly increasing", Input: input, Observed: notIncreasing})
+		}
+		if dups == 0 && (all[0] != first+1 || all[len(all)-1] != first+uint64(len(all))) {
+			s.res.fail(monitorFailure{Property: "C18", Signature: "concurrent-draws-not-the-next-n", What: "n draws did not return exactly the n values after the seed", Input: input,
+				Observed: fmt.Sprintf("min=%d max=%d", all[0]-first, all[len(all)-1]-first), Expected: fmt.Sprintf("1..%d", len(all))})
+		}
+		s.res.hist("concurrent-draw-rounds")
+	}
+	s.finish(dir, "enumerated: a node with four live channels (both roles, both directions, transfer ids colliding across peers) x sender {each counterparty, stranger, self} x transfer id {each existing id, fresh} x every request kind (8), response kind (9) and restart-existing request; plus SendVoucher / SendVoucherResult / UpdateValidationStatus on every channel and an unknown id; 3 rounds of a burst of 300-600 opens, process restart, one more open (ids across manager lifetimes); 3 rounds of 2 x GOMAXPROCS goroutines drawing 60000 ids each from one generator (distinct, increasing per caller, exactly the next n values)", true)
 }
 
 // ---------- nodeapi (C08, C09, C11, C19): API calls in every role and status, with send failures ----------
